@@ -319,10 +319,20 @@ structure Timer (δ ε : Type) where
   values without containers; for a `<param location=…>` / namelist entry that is an array or a map
   the elements are read from the (shared) cells of the sender's datamodel.  Constant. -/
   deref : δ → ε → ε
+  /-- milliseconds from now to the largest date `chrono` can represent (≈ 8.2·10^15; constant on the
+  time scale of the model) -/
+  headroom : Nat
+  /-- the session thread panicked inside `<send>` (see `Timer.send`) -/
+  crashed : Bool
 
-def Timer.initWith (deref : δ → ε → ε) (d : δ) : Timer δ ε :=
+def Timer.initFull (deref : δ → ε → ε) (headroom : Nat) (d : δ) : Timer δ ε :=
   { now := 0, alive := true, stopped := false, nextSeq := 0, data := d, pending := [], delayed := [], log := [],
-    errors := 0, deref := deref }
+    errors := 0, deref := deref, headroom := headroom, crashed := false }
+
+/-- `DateTime::<Utc>::MAX_UTC` (31 Dec 262142) minus September 2026, in ms, rounded down -/
+def chronoHeadroom : Nat := 8210000000000000
+
+def Timer.initWith (deref : δ → ε → ε) (d : δ) : Timer δ ε := Timer.initFull deref chronoHeadroom d
 
 /-- a session whose events share nothing with its datamodel (scalar payloads only) -/
 def Timer.init (d : δ) : Timer δ ε := Timer.initWith (fun _ e => e) d
@@ -348,6 +358,10 @@ def Timer.send (t : Timer δ ε) (id : Option SendId) (target : Str) (delay : In
   if t.alive = false then t
   else if delay < 0 then { t with errors := t.errors + 1 }
   else if 0 < delay ∧ target = internalTarget then { t with errors := t.errors + 1 }
+  else if t.headroom < delay.toNat then
+    -- `Fsm::schedule` → `timer.schedule_with_delay`: `Utc::now() + delay` leaves chrono's date range and
+    -- PANICS on the session thread; unwinding drops the `Fsm` (and its timer) like a termination
+    { t with alive := false, crashed := true }
   else
     let ev := mk t.data
     let seq := t.nextSeq
